@@ -433,17 +433,18 @@ Definition log_mw (on : bool) (inner : st -> hres) (x : st) : hres :=
   else inner x.
 
 (* ---------- Server.ServeHTTP ---------- *)
+(* net/http's finishRequest: a handler that never committed gets 200 *)
+Definition finish (x : st) : st := match cm x with Some _ => x | None => commit 200 x end.
 Definition server (chain : st -> hres) : st :=
-  let fin (x : st) := match cm x with Some _ => x | None => commit 200 x end in
   match chain st0 with
-  | HPan y => fin (out_st (default_error1 500 y))
+  | HPan y => finish (out_st (default_error1 500 y))
   | HRet s e y =>
       if 400 <=? s then
         match default_error1 s y with
-        | Done z => fin z
-        | Pan z => fin (out_st (default_error1 500 z))
+        | Done z => finish z
+        | Pan z => finish (out_st (default_error1 500 z))
         end
-      else fin y
+      else finish y
   end.
 End Errors.
 
